@@ -13,8 +13,8 @@ import numpy as np
 
 from simphot import scenes
 from simphot.compare import diff, digest
-from simphot.kernel import (Inapplicable, Machine, Raised, Violation, call,
-                            dec, enc)
+from simphot.kernel import (Held, Inapplicable, Machine, Raised, Violation,
+                            call, dec, enc)
 
 RTOL = 1e-10
 
@@ -206,6 +206,7 @@ class ProfileMachine(Machine):
             stats.probe('constructor_rejected_config')
             return st
         st.ref = self._reference(st.cfg, st.scene)
+        st.held = Held()
         st.f = 1.0                 # model normalisation state
         st.nnorm = 0
         st.read = set()
@@ -279,6 +280,14 @@ class ProfileMachine(Machine):
     def step(self, st, op):
         if st.dead:
             raise Inapplicable('dead')
+        try:
+            self._step(st, op)
+        finally:
+            pass
+        st.held.check(f'by {op.get("op")} {op.get("method", "")} '
+                      f'(history {st.hist})')
+
+    def _step(self, st, op):
         o = st.obj
         kind = op['op']
         where = f'after {st.hist}'
@@ -289,6 +298,11 @@ class ProfileMachine(Machine):
                 raise Inapplicable(attr)
             val = call(getattr, o, attr)
             st.trace.add('read', attr, digest(val))
+            # (normalization_value is a plain attribute that normalize()
+            # updates in place for unit-ful data; holding on to it is not
+            # what the statement is about)
+            if attr not in ('apertures', 'normalization_value'):
+                st.held.add(attr, val)
             if attr == 'apertures':
                 self._check_apertures(st, val)
             elif attr == 'normalization_value':
